@@ -38,7 +38,13 @@ func oracleC03(u *url.Url, mfn func() *model.URL, how string) *fw.Finding {
 		if m == nil || m.Observe() != o {
 			return false
 		}
-		m2, mo := mcfg().Parse(m.Href(false), nil)
+		cfg := mcfg()
+		m2, mo := cfg.Parse(m.Href(false), nil)
+		if cfg.Delegated > 0 && (mo != model.OK || m2.GetHostname() != m.GetHostname()) {
+			// the model's reparse consulted the implementation's own ToASCII and the host is what differs:
+			// that verdict is the implementation's, not the standard's
+			return false
+		}
 		return mo != model.OK || m2.Observe() != m.Observe()
 	}
 	if err != nil {
